@@ -20,7 +20,7 @@ pub const MAXC: u32 = 0x2FFFF;
 pub struct Ctx {
     prop: String,
     seed: u64,
-    deadline: Instant,
+    pub deadline: Instant,
     only_case: Option<u64>,
     case_no: u64,
     rng: u64,
@@ -1500,7 +1500,15 @@ fn main() {
         "C13" => c13(&mut ctx),
         "C01" | "C07" => regex_oracle::c01(&mut ctx),
         "C03" => regex_oracle::c03(&mut ctx),
-        "C02" | "C19" | "C04" | "C14" => regex_oracle::automata_checks(&mut ctx, &prop),
+        "C02" | "C19" => regex_oracle::automata_checks(&mut ctx, &prop),
+        "C04" | "C14" => {
+            // half of the budget on automata assembled with the builder (unreachable parts), half on compiled ones
+            let full = ctx.deadline;
+            ctx.deadline = Instant::now() + (full - Instant::now()) / 2;
+            let r = regex_oracle::builder_automata_checks(&mut ctx, &prop);
+            ctx.deadline = full;
+            if r.is_some() { r } else { regex_oracle::automata_checks(&mut ctx, &prop) }
+        }
         "C05" => regex_oracle::c05(&mut ctx),
         "C18" => regex_oracle::c18(&mut ctx),
         "C16" => regex_oracle::c16(&mut ctx),
